@@ -233,6 +233,50 @@ pub fn search(seed: u64, n: u64) {
     let thorough = n >= 100000;
     search_lines_grid(&mut stats, if thorough { 4 } else { 3 });
     search_clip_grid(&mut stats, if thorough { 4 } else { 3 });
+    // short, almost straight edges (0.1 .. 1 units long, control points 1e-4 .. 1e-2 off the chord's third points) crossed at a general angle
+    // (own stream): the distance cubic's leading coefficients are a millionth of the linear one, the quadratic that is solved instead has a
+    // second root hundreds of units outside the curve
+    let mut rng_s = Rng(seed ^ 0x5707C04);
+    let regress = [
+        ([Coord2(30.401237216906033, 53.74612452605386), Coord2(30.500472658824105, 53.75021216917833), Coord2(30.600440300680898, 53.752623620754285), Coord2(30.701117361068853, 53.75344481963659)], (Coord2(27.636417767290794, 64.03989485775425), Coord2(19.365841595660566, 93.32384569681716))),
+        ([Coord2(20.23903371159554, 62.52588669633538), Coord2(20.23734451093884, 62.61166612053081), Coord2(20.23625797773748, 62.697712251579176), Coord2(20.236257977737484, 62.78401215605426)], (Coord2(69.47173285306698, 61.09557514901203), Coord2(55.48957548276799, 61.53252056313267))),
+    ];
+    for (w, l) in regress.iter() {
+        let c = Curve::from_points(w[0], (w[1], w[2]), w[3]);
+        let desc = format!("curve=[{:?},{:?},{:?},{:?}] line={:?}", w[0], w[1], w[2], w[3], l);
+        stats.case(&desc, true);
+        stats.count("short_nearly_straight_edge.corpus");
+        check_curve_line(&c, l, &mut stats, &desc);
+    }
+    for _ in 0..n / 4 {
+        let a = Coord2(rng_s.r(5.0, 95.0), rng_s.r(5.0, 95.0));
+        let ang = rng_s.r(0.0, std::f64::consts::TAU);
+        let len = 10f64.powf(rng_s.r(-1.0, 0.0));
+        let (u, nn) = (Coord2(ang.cos(), ang.sin()), Coord2(-ang.sin(), ang.cos()));
+        let bend = |rng: &mut Rng| 10f64.powf(rng.r(-4.0, -2.0)) * if rng.b() { 1.0 } else { -1.0 };
+        let mut w = [a, a + u * (len / 3.0) + nn * bend(&mut rng_s), a + u * (len * 2.0 / 3.0) + nn * bend(&mut rng_s), a + u * len];
+        if rng_s.i(3) != 0 {
+            // two in three: a short piece (0.2 % .. 2 % of the parameter range) of a large smooth curve, as the collision stage produces them:
+            // the cubic, quadratic and linear coefficients then scale like len^3, len^2, len
+            let big = gen_curve(&mut rng_s);
+            let t0 = rng_s.r(0.0, 0.97);
+            let piece: Curve<Coord2> = Curve::from_curve(&big.section(t0, t0 + 10f64.powf(rng_s.r(-2.7, -1.7))));
+            let (c1, c2) = piece.control_points();
+            w = [piece.start_point(), c1, c2, piece.end_point()];
+        }
+        let ang = { let dd = w[3] - w[0]; dd.1.atan2(dd.0) };
+        let c = Curve::from_points(w[0], (w[1], w[2]), w[3]);
+        // a line through a point of the edge, 20 .. 160 degrees to it, given by two points tens of units away
+        let q = c.point_at_pos(rng_s.r(0.1, 0.9));
+        let la = ang + rng_s.r(0.35, 2.8);
+        let d = Coord2(la.cos(), la.sin());
+        let (s1, s2) = (rng_s.r(5.0, 40.0), rng_s.r(5.0, 40.0));
+        let l = if rng_s.b() { (q + d * s1, q + d * (s1 + s2)) } else { (q - d * s1, q + d * s2) };
+        let desc = format!("curve=[{:?},{:?},{:?},{:?}] line={:?}", w[0], w[1], w[2], w[3], l);
+        stats.case(&desc, true);
+        stats.count("short_nearly_straight_edge");
+        check_curve_line(&c, &l, &mut stats, &desc);
+    }
     for _ in 0..n {
         let c = gen_curve(&mut rng);
         let l = gen_line_for(&mut rng, &c);
